@@ -68,6 +68,44 @@ class Bounded:
         with contextlib.redirect_stdout(io.StringIO()), contextlib.redirect_stderr(io.StringIO()):
             yield
 
+    def fan_out(self, worker, items, procs=16):
+        """run worker(self, item) for every item in forked children (each in its own temp cwd); merge cases and failures"""
+        import multiprocessing as mp
+
+        def child(chunk, q):
+            sub = tempfile.mkdtemp(prefix="verif-bounded-w-")
+            os.chdir(sub)
+            self.work = sub
+            self.enumerated = self.random = 0
+            self.keys, self.failures = set(), []
+            err = None
+            try:
+                for it in chunk:
+                    worker(self, it)
+            except Exception as e:
+                err = f"{type(e).__name__}: {e} {traceback.format_exc()[-800:]}"
+            os.chdir("/")
+            shutil.rmtree(sub, ignore_errors=True)
+            q.put((self.enumerated, self.random, list(self.keys), self.failures, err))
+        procs = max(1, min(procs, len(items)))
+        chunks = [items[i::procs] for i in range(procs)]
+        ctx = mp.get_context("fork")
+        q = ctx.Queue()
+        ps = [ctx.Process(target=child, args=(c, q)) for c in chunks]
+        for p_ in ps:
+            p_.start()
+        for _ in ps:
+            e, r, ks, fs, err = q.get()
+            if err:
+                raise RuntimeError("bounded worker failed: " + err)
+            self.enumerated += e
+            self.random += r
+            self.keys |= set(ks)
+            self.failures.extend(fs)
+        for p_ in ps:
+            p_.join()
+        self.failures = self.failures[:200]
+
     def finish(self):
         os.chdir("/")
         shutil.rmtree(self.work, ignore_errors=True)
